@@ -169,6 +169,8 @@ def sourcepath_rule(report, index, rid):
 
 
 def run(report, index, tier):
+    from engine.layout import register_fragment_fields
+    register_fragment_fields(index)
     M = models(index)
     from .c20 import guard_tokens, guard_transcriptions
     guard_tokens(report, index, M)
